@@ -97,6 +97,10 @@ pub trait Property: Sync {
     fn allows_rejected_lines(&self) -> bool {
         false
     }
+    /// A hang that the property's statement is silent about (default: every hang counts).
+    fn excuses_hang(&self, _scn: &Scenario, _r: &RunResult) -> bool {
+        false
+    }
     /// probe counters derived from a finished, judged run
     fn run_probes(&self, _scn: &Scenario, _r: &RunResult) -> BTreeMap<String, u64> {
         BTreeMap::new()
@@ -212,6 +216,7 @@ pub fn all_violations(prop: &dyn Property, scn: &Scenario, refdata: Option<&RefD
             let cause = if f.contains("panicked") { "panic" } else { "internal-error" };
             v.push(Violation::new(id, "worker-or-env-crash", cause, f, r.steps));
         }
+        EndState::Hang if prop.excuses_hang(scn, r) => {}
         EndState::Hang => v.push(Violation::new(id, "hang", "quiescent-without-result", format!("system quiescent after {} decisions but the client is still waiting (op {})", r.steps, r.outs.len()), r.steps)),
         EndState::TailBound => v.push(Violation::new(id, "liveness", "fair-tail-bound-exceeded", format!("fair fault-free tail ran {} decisions without completing", r.tail_steps), r.steps)),
         _ => {}
